@@ -59,10 +59,24 @@ func c18bridge(steps, bound, slice int) *explore.Scenario {
 				d := d
 				zzvsched.GoNamed(fmt.Sprintf("reader-of-dir%d", d), func() {
 					for {
-						buf := make([]byte, slice)
+						// a sub-slice with spare capacity: nothing beyond len may be used
+						full := make([]byte, slice+16)
+						for i := range full {
+							full[i] = 0xCD
+						}
+						buf := full[:slice]
 						n, err := conns[1-d].Read(buf)
 						if err != nil {
 							return
+						}
+						if n > slice {
+							got[d] = append(got[d], fmt.Sprintf("<n=%d beyond the %d-byte slice>", n, slice))
+							continue
+						}
+						for _, x := range full[slice:] {
+							if x != 0xCD {
+								got[d] = append(got[d], "<wrote beyond the slice>")
+							}
 						}
 						got[d] = append(got[d], string(buf[:n]))
 					}
@@ -283,8 +297,13 @@ func c18dpipe(steps int) *explore.Scenario {
 					return
 				}
 				script = append(script, fmt.Sprintf("%s(%d)", name, slice))
-				buf := make([]byte, slice)
+				full := make([]byte, slice+16) // the reader's slice has spare capacity behind it
+				buf := full[:slice]
 				n, err := c.Read(buf)
+				if n > slice {
+					fail("read-count", "Read into a %d-byte slice returned n=%d", slice, n)
+					return
+				}
 				if closed {
 					if err == io.EOF {
 						return
